@@ -166,6 +166,12 @@ class Repo:
         from . import anchors as _anchors
         self.renamed = _anchors.detect([m.tree for m in mods])
         _anchors.apply([m.tree for m in mods] + [m.orig_tree for m in mods], self.renamed)
+        # package-wide pre-passes (sa/prepass.py): module constants, named tuples
+        from . import prepass as _prepass
+        self.prepass = {
+            'constants': _prepass.fold_module_constants({m.name: m.tree for m in mods}),
+            'named_tuples': _prepass.erase_named_tuples([m.tree for m in mods]),
+        }
         # source normalisation (sa/normalize.py): needs every class for helper lookup
         self.normalised = {}
         if normalise:
@@ -178,7 +184,7 @@ class Repo:
                         allc.setdefault(n.name, n)
             for m in mods:
                 try:
-                    cnt = normalize_module(m.tree, Canon.NO_INLINE, allc)
+                    cnt = normalize_module(m.tree, Canon.NO_INLINE, allc, _anchors.recorded_methods())
                 except RecursionError:
                     cnt = {}
                 for k, v in cnt.items():
